@@ -200,6 +200,8 @@ class Inliner:
                 break
         node = normalise(self.prj, fi, node)
         ast.fix_missing_locations(node)
+        if self.inlined[fi.qual]:
+            _renumber(node, fi.module.rel)
         syn = FuncInfo(fi.module, node, fi.cls, fi.outer)
         syn.nested = dict(fi.nested)
         syn.inlined_from = list(self.inlined[fi.qual])
@@ -497,6 +499,25 @@ class Inliner:
             return None
         self.inlined[stack[0]].append(callee.qual)
         return self._block(fi, prelude + new_body, stack + [callee.qual])
+
+
+def _renumber(node, rel: str):
+    """Spliced statements carry the line numbers of the helper they came from; analyses order statements by position.
+    Keep the true origin of every node in `_site` (used for reporting) and give the view fresh, strictly increasing
+    positions in execution (source) order."""
+    for n in ast.walk(node):
+        if hasattr(n, "lineno") and not getattr(n, "_site", None):
+            n._site = f"{rel}:{n.lineno}"
+    k = [getattr(node, "lineno", 1) * 1000]
+
+    def rec(n):
+        if hasattr(n, "lineno"):
+            k[0] += 1
+            n.lineno = n.end_lineno = k[0]
+            n.col_offset, n.end_col_offset = 0, 0
+        for c in ast.iter_child_nodes(n):
+            rec(c)
+    rec(node)
 
 
 def _replace(root, old, new):
